@@ -26,7 +26,7 @@ MANIFEST = {
                  "translator on every run) + vm_compute correspondence against the artists read back from the matplotlib axes "
                  "after savefig on the Agg backend + independent recomputation oracle",
     "level_text": "Machine-checked theorems (C19_select, C19_linspace, C19_domain, C19_residuals, C19_hist, C19_labels, C19_order, "
-                  "C19_history, C19_legend, C19_fit_curve_partial, closed under the global context) about the data the library "
+                  "C19_history, C19_sessions, C19_legend, C19_fit_curve_partial, closed under the global context) about the data the library "
                   "hands to matplotlib, for all data sets, functions, ranges, object lists, orders of adding (Permutation) and "
                   "histories of adding / switching / rendering (induction over call sequences; the x-range a rendering leaves "
                   "behind in a function is shown to be unobservable). The x-range mask, the "
@@ -387,8 +387,49 @@ def gen_order_set(rng, k):
 # =====================================================================================================
 # running a script on the implementation
 # =====================================================================================================
+_CLASS_STATE = None
+
+
+def _mutable_state():
+    """(owner, name, value) of every dict / list / set held at class or module level by the plotting package"""
+    import qexpy.plotting.plotting as P
+    import qexpy.plotting.plotobjects as PO
+    out = []
+    for mod in (P, PO):
+        owners = [mod] + [c for c in vars(mod).values() if isinstance(c, type) and c.__module__ == mod.__name__]
+        for owner in owners:
+            for name, val in list(vars(owner).items()):
+                if isinstance(val, (dict, list, set)) and not name.startswith("__"):
+                    out.append((owner, name, val))
+    return out
+
+
+def restore_class_state():
+    """every case starts from the state of a freshly started interpreter: mutable class-level / module-level state of the
+    plotting package is put back (in place) to what it was right after import, so that a recorded failing input does not
+    depend on what the same process ran before it"""
+    global _CLASS_STATE
+    import copy
+    if _CLASS_STATE is None:
+        _CLASS_STATE = [(o, n, copy.deepcopy(v)) for o, n, v in _mutable_state()]
+        return
+    for owner, name, fresh in _CLASS_STATE:
+        cur = vars(owner).get(name)
+        if isinstance(cur, dict) and isinstance(fresh, dict):
+            cur.clear()
+            cur.update(copy.deepcopy(fresh))
+        elif isinstance(cur, list) and isinstance(fresh, list):
+            cur[:] = copy.deepcopy(fresh)
+        elif isinstance(cur, set) and isinstance(fresh, set):
+            cur.clear()
+            cur.update(fresh)
+        else:
+            setattr(owner, name, copy.deepcopy(fresh))
+
+
 def reset_impl():
     q = _q()
+    restore_class_state()
     import qexpy.settings.settings as S
     S.Settings._Settings__instance = None
     q.reset_default_configuration()
@@ -685,58 +726,18 @@ def printed_unit(u):
     return _q().MeasurementArray([1.0], unit=u).unit
 
 
-def execute(script, order=None):
-    """run the script on the implementation; returns {"obs": ..., "aux": ...}; everything JSON-able"""
+def observe_plot(p, specs, st, handles, obs, renders=1, via_module=False):
+    """render Plot p (whose objects were made from specs, with the switches / labels st set on it) and read the artists
+    back into obs; returns the auxiliary user-level information about the objects"""
     import numpy as np
-    import matplotlib.pyplot as plt
-    q = _q()
-    warnings.simplefilter("ignore")
-    reset_impl()
-    np.random.seed(script["seed"])
-    st = script["settings"]
-    order = list(range(len(script["objects"]))) if order is None else order
-    specs = [script["objects"][i] for i in order]
-    import qexpy.plotting.plotting as P
     import qexpy.plotting as qp
-    obs = {"status": "ok", "returned": []}
+    q = _q()
     aux = []
     try:
-        p = None
-        handles = []
-        if st["entry"] == "class" or not specs or specs[0]["kind"] == "plotfit":
-            p = P.Plot()
-            if st["settings_first"]:
-                apply_settings(p, st)
-        for i, spec in enumerate(specs):
-            if p is None:            # module-level entry point for the first object
-                shim = _FirstCall(qp, spec)
-                h = add_object(shim, spec, handles)
-                p = shim.plot_obj
-                if qp.get_plot() is not p:
-                    raise Structure("get_plot() is not the plot returned by the module-level call")
-                if st["settings_first"]:
-                    apply_settings(p, st)
-            else:
-                h = add_object(p, spec, handles)
-            handles.append(h)
-            if "returned" in h:
-                obs["returned"].append(h["returned"])
-            if st.get("early_render") == i + 1:
-                try:
-                    p.savefig(io.BytesIO(), format="png", dpi=DPI)
-                except Exception:  # noqa -- a plot that cannot be rendered yet
-                    pass
-                plt.close("all")
-        if not st["settings_first"]:
-            apply_settings(p, st)
-    except Exception as e:  # noqa
-        plt.close("all")
-        return {"obs": {"status": "add-error", "error": "{}: {}".format(type(e).__name__, str(e)[:200])}, "aux": []}
-    try:
         figs = []
-        for _ in range(st["renders"]):
+        for _ in range(renders):
             buf = io.BytesIO()
-            if st["entry"] == "module" and qp.get_plot() is p:
+            if via_module and qp.get_plot() is p:
                 qp.savefig(buf, format="png", dpi=DPI)
             else:
                 p.savefig(buf, format="png", dpi=DPI)
@@ -780,6 +781,56 @@ def execute(script, order=None):
                 a["fitfn_at_curve"] = [float(v.value) for v in at_curve]
                 a["fitfn_err_at_curve"] = [float(v.error) for v in at_curve]
         aux.append(a)
+    return aux
+
+
+def execute(script, order=None):
+    """run the script on the implementation; returns {"obs": ..., "aux": ...}; everything JSON-able"""
+    import numpy as np
+    import matplotlib.pyplot as plt
+    q = _q()
+    warnings.simplefilter("ignore")
+    reset_impl()
+    np.random.seed(script["seed"])
+    st = script["settings"]
+    order = list(range(len(script["objects"]))) if order is None else order
+    specs = [script["objects"][i] for i in order]
+    import qexpy.plotting.plotting as P
+    import qexpy.plotting as qp
+    obs = {"status": "ok", "returned": []}
+    try:
+        p = None
+        handles = []
+        if st["entry"] == "class" or not specs or specs[0]["kind"] == "plotfit":
+            p = P.Plot()
+            if st["settings_first"]:
+                apply_settings(p, st)
+        for i, spec in enumerate(specs):
+            if p is None:            # module-level entry point for the first object
+                shim = _FirstCall(qp, spec)
+                h = add_object(shim, spec, handles)
+                p = shim.plot_obj
+                if qp.get_plot() is not p:
+                    raise Structure("get_plot() is not the plot returned by the module-level call")
+                if st["settings_first"]:
+                    apply_settings(p, st)
+            else:
+                h = add_object(p, spec, handles)
+            handles.append(h)
+            if "returned" in h:
+                obs["returned"].append(h["returned"])
+            if st.get("early_render") == i + 1:
+                try:
+                    p.savefig(io.BytesIO(), format="png", dpi=DPI)
+                except Exception:  # noqa -- a plot that cannot be rendered yet
+                    pass
+                plt.close("all")
+        if not st["settings_first"]:
+            apply_settings(p, st)
+    except Exception as e:  # noqa
+        plt.close("all")
+        return {"obs": {"status": "add-error", "error": "{}: {}".format(type(e).__name__, str(e)[:200])}, "aux": []}
+    aux = observe_plot(p, specs, st, handles, obs, st["renders"], st["entry"] == "module")
     plt.close("all")
     reset_impl()
     return {"obs": obs, "aux": aux}
@@ -1144,11 +1195,146 @@ def check_orders(script):
     return None
 
 
+
+# =====================================================================================================
+# multi-plot sessions: several Plot objects alive at once, interleaved calls, every render checked
+# against the state of THAT plot alone (tracked from the calls made on it, never read back from the object)
+# =====================================================================================================
+DEFAULT_SWITCHES = {"error_bars": True, "residuals": False, "legend": False}
+
+
+def gen_session(rng):
+    k = rng.choice([2, 2, 3])
+    plots, seqs = [], []
+    for _ in range(k):
+        sc = gen_script(rng, rng.choice(["mixed", "mixed", "fit", "labels", "hist"]))
+        objs = sc["objects"][:3]
+        if any(o["kind"] == "plotfit" for o in objs) and not any(o["kind"] in ("data", "hist") for o in objs):
+            objs = [o for o in objs if o["kind"] != "plotfit"]
+        for o in objs:
+            if o["kind"] == "func" and o["xrange"] == "empty":
+                o["xrange"] = None
+        st = sc["settings"]
+        if rng.random() < 0.45:        # a plot that never touches its switches: everything must stay at the defaults
+            st = dict(st, **DEFAULT_SWITCHES)
+        plots.append({"objects": objs, "entry": st["entry"]})
+        ops = [["add", j] for j in range(len(objs))]
+        extra = []
+        for name, dflt in DEFAULT_SWITCHES.items():
+            if st[name] != dflt or rng.random() < 0.1:
+                extra.append(["switch", name, st[name]])
+        for key in ("title", "xname", "yname", "xunit", "yunit"):
+            if st[key]:
+                extra.append(["info", key, st[key]])
+        if st["xrange"] is not None:
+            extra.append(["xrange", st["xrange"]])
+        for e in extra:                # settings calls at arbitrary positions (after the plot exists)
+            ops.insert(rng.randint(1 if ops else 0, len(ops)), e)
+        if len(objs) >= 2 and rng.random() < 0.3:
+            ops.insert(rng.randint(1, len(ops)), ["render"])
+        ops.append(["render"])
+        seqs.append(ops)
+    steps, pos = [], [0] * k
+    while any(pos[i] < len(seqs[i]) for i in range(k)):
+        i = rng.choice([j for j in range(k) if pos[j] < len(seqs[j])])
+        steps.append([i] + seqs[i][pos[i]])
+        pos[i] += 1
+    for i in range(k):                 # render everything once more after all the calls on the other plots
+        if rng.random() < 0.7:
+            steps.append([i, "render"])
+    return {"seed": rng.randrange(2 ** 31), "plots": plots, "steps": steps, "kind": "session"}
+
+
+def execute_session(sess):
+    """returns {"status": "ok"|"add-error", "renders": [{"plot": i, "step": n, "script": <the plot's own state as a
+    single-plot script>, "order": [...], "run": {"obs", "aux"}}]}"""
+    import numpy as np
+    import matplotlib.pyplot as plt
+    import qexpy.plotting.plotting as P
+    import qexpy.plotting as qp
+    warnings.simplefilter("ignore")
+    reset_impl()
+    np.random.seed(sess["seed"])
+    k = len(sess["plots"])
+    plots, handles, specs, returned = [None] * k, [[] for _ in range(k)], [[] for _ in range(k)], [[] for _ in range(k)]
+    tracked = [dict(DEFAULT_SWITCHES, xrange=None, title="", xname="", yname="", xunit="", yunit="", entry="class",
+                    renders=1, settings_first=True) for _ in range(k)]
+    out = []
+    try:
+        for n, step in enumerate(sess["steps"]):
+            i, op = step[0], step[1]
+            if plots[i] is None and not (op == "add" and sess["plots"][i]["entry"] == "module"
+                                         and sess["plots"][i]["objects"][step[2]]["kind"] != "plotfit"):
+                plots[i] = P.Plot()
+            if op == "add":
+                spec = sess["plots"][i]["objects"][step[2]]
+                if plots[i] is None:
+                    shim = _FirstCall(qp, spec)
+                    h = add_object(shim, spec, handles[i])
+                    plots[i] = shim.plot_obj
+                else:
+                    h = add_object(plots[i], spec, handles[i])
+                handles[i].append(h)
+                specs[i].append(spec)
+                if "returned" in h:
+                    returned[i].append(h["returned"])
+            elif op == "switch":
+                getattr(plots[i], step[2])(step[3])
+                tracked[i][step[2]] = step[3]
+            elif op == "info":
+                setattr(plots[i], step[2], step[3])
+                tracked[i][step[2]] = step[3]
+            elif op == "xrange":
+                plots[i].xrange = tuple(step[2])
+                tracked[i]["xrange"] = list(step[2])
+            elif op == "render":
+                obs = {"status": "ok", "returned": list(returned[i])}
+                st = dict(tracked[i])
+                aux = observe_plot(plots[i], list(specs[i]), st, handles[i], obs)
+                plt.close("all")
+                out.append({"plot": i, "step": n, "script": {"seed": sess["seed"], "objects": list(specs[i]), "settings": st,
+                                                             "kind": "session"},
+                            "order": list(range(len(specs[i]))), "run": {"obs": obs, "aux": aux}})
+    except Exception as e:  # noqa
+        plt.close("all")
+        reset_impl()
+        return {"status": "add-error", "error": "{}: {}".format(type(e).__name__, str(e)[:200]), "renders": []}
+    plt.close("all")
+    reset_impl()
+    return {"status": "ok", "renders": out}
+
+
+def check_session(sess, result=None):
+    result = result or execute_session(sess)
+    for r in result["renders"]:
+        why = oracle(r["script"], r["order"], r["run"])
+        if why:
+            calls = [st[1:] for st in sess["steps"][:r["step"]] if st[0] == r["plot"] and st[1] != "add"]
+            return "plot {} of {} alive (rendered at step {}; calls made on it: {}): {}".format(
+                r["plot"], len(sess["plots"]), r["step"], calls if calls else "none but plot/hist/fit", why)
+    return None
+
+
+def shrink_session(sess):
+    def bad(steps):
+        return bool(steps) and check_session(dict(sess, steps=steps)) is not None
+    steps = core.shrink_list(list(sess["steps"]), lambda c: safe(bad, c))
+    return dict(sess, steps=steps)
+
+
+def safe(f, x):
+    try:
+        return f(x)
+    except Exception:  # noqa
+        return False
+
 # =====================================================================================================
 # shrinking and replay
 # =====================================================================================================
 def fails(case):
     try:
+        if case.get("session"):
+            return check_session(case["session"]) is not None
         if case.get("all_orders"):
             return check_orders(case["script"]) is not None
         return check_script(case["script"], case.get("order")) is not None
@@ -1157,6 +1343,8 @@ def fails(case):
 
 
 def shrink_case(case):
+    if case.get("session"):
+        return {"session": shrink_session(case["session"])}
     script = json.loads(json.dumps(case["script"]))
     order = case.get("order") or list(range(len(script["objects"])))
     all_orders = bool(case.get("all_orders"))
@@ -1202,6 +1390,8 @@ def cut_data(o, keep):
 
 def describe(case):
     try:
+        if case.get("session"):
+            return check_session(case["session"])
         if case.get("all_orders"):
             r = check_orders(case["script"])
             return None if r is None else "adding in order {}: {}".format(r[0], r[1])
@@ -1251,6 +1441,8 @@ def search(ctx, suspects, budget):
             r = rng.random()
             if r < 0.2:
                 case = {"script": gen_order_set(rng, rng.choice([2, 2, 3])), "order": None, "all_orders": True}
+            elif r < 0.45:
+                case = {"session": gen_session(rng)}
             else:
                 case = {"script": gen_script(rng, "malformed" if r < 0.27 else None), "order": None, "all_orders": False}
         n += 1
@@ -1260,7 +1452,8 @@ def search(ctx, suspects, budget):
             why2 = describe(small)
             if why2 is None:
                 small, why2 = case, why
-            v = Violation(ID, "orders" if small.get("all_orders") else "script", small, why2)
+            v = Violation(ID, "session" if small.get("session") else ("orders" if small.get("all_orders") else "script"),
+                          small, why2)
             if v.key not in seen:
                 seen.add(v.key)
                 out.append(v)
@@ -1438,6 +1631,22 @@ def _worker(job):
         return {"obs": {"status": "harness-error", "error": "{}: {}".format(type(e).__name__, e)}, "aux": []}
 
 
+def _session_worker(sess):
+    try:
+        core.setup_impl()
+        return execute_session(sess)
+    except Exception as e:  # noqa
+        return {"status": "harness-error", "error": "{}: {}".format(type(e).__name__, e), "renders": []}
+
+
+def run_sessions(sessions, workers=10):
+    if len(sessions) < 3:
+        return [_session_worker(x) for x in sessions]
+    import multiprocessing as mp
+    with mp.get_context("fork").Pool(workers) as pool:
+        return pool.map(_session_worker, sessions, chunksize=1)
+
+
 def run_jobs(jobs, workers=10):
     if len(jobs) < 4:
         return [_worker(j) for j in jobs]
@@ -1532,6 +1741,25 @@ def correspondence(ctx):
             cases.append((s, p, "orders"))
     t0 = time.time()
     runs = run_jobs([(s, o) for s, o, _ in cases])
+    # multi-plot sessions: each render of each plot becomes a case of that plot's own state
+    sessions = [gen_session(rng) for _ in range(ctx.n(16, 140))]
+    sess_of, n_sess_ok, n_sess_renders = {}, 0, 0
+    for sess, result in zip(sessions, run_sessions(sessions)):
+        res.count("session:" + result["status"])
+        if result["status"] == "harness-error":
+            res.disagreements.append({"name": "harness error while running a multi-plot session: " + result["error"][:200],
+                                      "kind": "session", "case": {"session": sess}})
+        if result["status"] != "ok":
+            continue
+        n_sess_ok += 1
+        res.count("session:plots:{}".format(len(sess["plots"])))
+        for r in result["renders"]:
+            cases.append((r["script"], r["order"], "session"))
+            runs.append(r["run"])
+            sess_of[id(r["script"])] = sess
+            n_sess_renders += 1
+    res.extra["multi_plot_sessions"] = "{} sessions of 2-3 plots alive at once, {} renders compared with the state of their " \
+                                       "own plot".format(n_sess_ok, n_sess_renders)
     ctx.notes.append("implementation: {} renders in {:.1f}s".format(len(cases), time.time() - t0))
     scripts_seen = set()
     usable = []
@@ -1617,8 +1845,9 @@ def correspondence(ctx):
             continue
         for i in sorted(set(idx[j] for j in bad[0])):
             s, o, tag, run = usable[i]
-            d = {"name": "Model.Plot.savefig vs Plot.savefig (artists on the axes)", "kind": "script",
-                 "case": {"script": s, "order": o, "all_orders": False},
+            d = {"name": "Model.Plot.savefig vs Plot.savefig (artists on the axes)",
+                 "kind": "session" if id(s) in sess_of else "script",
+                 "case": {"session": sess_of[id(s)]} if id(s) in sess_of else {"script": s, "order": o, "all_orders": False},
                  "status": run["obs"]["status"], "error": run["obs"].get("error")}
             if len(res.disagreements) < 4:
                 d["diagnosis"] = diagnose(s, o, run)
@@ -1629,7 +1858,10 @@ def correspondence(ctx):
                 "Plot.fit() on a data set or a histogram, +/- fit x-range; histograms with default/integer/unequal-width sequence/string-rule bins +/- density, weights, cumulative, +/- "
                 "range), error-bar / residual / legend switches, explicit plot x-range, label overrides, one or two renders, "
                 "class or module-level entry points; a malformed stream of plots that cannot be rendered (no x-range anywhere, "
-                "explicitly empty function range); and small object sets added in ALL orders. Each is rendered by savefig on "
+                "explicitly empty function range); small object sets added in ALL orders; and multi-plot sessions (2-3 Plot "
+                "objects alive at once, interleaved plot/hist/fit, error_bars/residuals/legend, label, x-range and savefig calls, "
+                "a plot that keeps the default switches makes no switch call; every render is compared with the model state of "
+                "its own plot, tracked from the calls made on it). Each is rendered by savefig on "
                 "Agg and the artists are compared with Model.Plot.savefig by vm_compute (exact up to 1e-12; fit curves within "
                 "6 sigma of the Monte Carlo sampling error). non-trivial = exercises a mask that removes a point, a function "
                 "on the plot domain or its own range, a fit, or a histogram (distinct by content)")
